@@ -1163,6 +1163,8 @@ def _parse(interp, args, kwargs):
         return fr
     if isinstance(data, bytes) and not data:
         return new_msg(interp, cls.mtype, [], {})
+    if isinstance(data, ExtObj) and data.kind == "bytes:header" and data.attrs.get("data") == b"":
+        return new_msg(interp, cls.mtype, [], {})  # zero bytes parse to an empty message
     if isinstance(data, ExtObj) and data.kind == "bytes:chunk" and data.attrs.get("data") == b"":
         fr = data.attrs.get("frame")
         return fr if fr is not None else new_msg(interp, cls.mtype, [], {})
@@ -1252,7 +1254,11 @@ def _serialize_length_prefixed(interp, args, kwargs):
         # smaller than the writer's buffer: stays there until flush/close/detach (worst case allowed by io.BufferedWriter)
         _bw_check(interp, out)
         out.attrs["pending"].append(("delimited", frame))
-    elif not isinstance(out, (Obj, Unknown)):
+    elif isinstance(out, Obj):
+        # a writer object of the program: protobuf calls its write() (length prefix, then payload)
+        payload = ExtObj("bytes:frame", {"msg": copy_msg(interp, frame), "deterministic": None, "size": getattr(interp, "forced_frame_sizes", {}).get(frame.uid), "length_prefixed": True})
+        interp.call(interp.getattr(out, "write"), [payload], {})
+    elif not isinstance(out, Unknown):
         raise interp.unsupported(f"serialize_length_prefixed to {out!r}")
 
 
@@ -1455,6 +1461,9 @@ _EXT = {
     "collections.OrderedDict": _ordereddict,
     "collections.deque": _deque,
     "collections.namedtuple": _namedtuple,
+    "weakref.WeakValueDictionary": lambda i, a, k: _b_dict(i, a, k),  # weakness (entries vanish with their values) is not modelled
+    "weakref.WeakKeyDictionary": lambda i, a, k: _b_dict(i, a, k),
+    "weakref.WeakSet": lambda i, a, k: _b_set(i, a, k),
     "itertools.chain": _chain,
     "itertools.chain.from_iterable": _chain_from_iterable,
     "functools.singledispatch": _singledispatch,
@@ -1599,6 +1608,10 @@ def getattr_ext(interp, obj: Any, name: str) -> Any:
             import ast as _ast
 
             return _ast.get_docstring(obj.info.node) if not isinstance(obj.info.node, _ast.Lambda) else None
+        if name == "__module__":
+            return obj.info.module
+        if name.startswith("__") and name.endswith("__"):
+            raise interp.unsupported(f"special attribute {name} of a function")
         raise interp.exc("AttributeError", name)
     if isinstance(obj, BoundMethod):
         if name == "__self__":
@@ -1893,6 +1906,18 @@ def msg_method(interp, m: Msg, name: str, args: list, kwargs: dict) -> Any:
         m.present = c.present
         _mark_present(interp, m)
         return None
+    if name in ("ParseFromString", "MergeFromString"):
+        data = args[0]
+        cls = MsgClass(m.mtype)
+        parsed = _parse(interp, [cls, data], {})
+        c = copy_msg(interp, parsed)
+        m.fields = c.fields
+        for v in m.fields.values():
+            if isinstance(v, Msg):
+                v.parent = (m, next(k_ for k_, x in m.fields.items() if x is v))
+        m.present = c.present
+        _mark_present(interp, m)
+        return _len(interp, data)
     if name == "ByteSize":
         forced = getattr(interp, "forced_frame_sizes", {}).get(m.uid)
         if forced is not None:
@@ -2601,6 +2626,16 @@ def _io_method(interp, o: ExtObj, name: str, args: list, kwargs: dict) -> Any:
                 data = data[:short]
                 interp.emit("short_read", method=name, n=n, got=len(data))
             if name != "peek":
+                # a program that parses length prefixes itself and meets a zero prefix at a frame boundary inside the
+                # modelled header bytes has thereby consumed an (empty) frame of the abstract sequence
+                boundary = root.attrs.get("hdr_boundary", root.attrs.get("start", 0))
+                if n == 1 and len(data) == 1 and boundary is not None and root.attrs["pos"] == boundary:
+                    if data == b"\x00" and _frames_remaining(interp, root) and isinstance(root.attrs.get("peeked"), Msg) and not _msg_has_content(root.attrs["peeked"]):
+                        fr0 = root.attrs.pop("peeked")
+                        interp.emit("frame_pull", got=True, frame=fr0, own_reader=True, empty=True)
+                        root.attrs["hdr_boundary"] = boundary + 1
+                    else:
+                        root.attrs["hdr_boundary"] = None
                 root.attrs["pos"] += len(data)
                 if isinstance(n, int) and n != 3 and n > len(data):
                     # a body read that runs past the modelled header bytes: the rest of that frame
